@@ -1,6 +1,6 @@
 (* C10 - All views of the board describe one consistent legal position. *)
 From Coq Require Import NArith List Bool.
-From Arimaa Require Import Types U64 Board Engine Cells Rules StepLemmas GenLemmas Invariant.
+From Arimaa Require Import Types U64 Board Engine Cells Rules Monitors StepLemmas GenLemmas Invariant Traps Setup.
 Open Scope N_scope.
 
 (* every state satisfying the (inductive) play-phase invariant has a well-formed board: each occupied
@@ -22,3 +22,14 @@ Print Assumptions C10_view_kind.
 Theorem C10_view_lookup : forall b i, WFb b -> i < 64 -> piece_type_at_square b i = option_map snd (cell b i).
 Proof. exact piece_type_at_square_spec. Qed.
 Print Assumptions C10_view_lookup.
+
+(* once a step has been applied no piece stands on a trap square without an adjacent friendly piece *)
+Theorem C10_traps : forall s pp i d, PlayInv s pp -> In (Move i d) (valid_actions_no_rep s) ->
+  forall j, j < 64 -> unsupported_on_trap (cell (board (take_action s (Move i d)))) j = false.
+Proof. exact step_settles. Qed.
+Print Assumptions C10_traps.
+
+(* during setup the board is well formed too *)
+Theorem C10_wf_setup : forall s n, SetupInv s n -> WFb (board s).
+Proof. intros s n H. exact (si_wf s n H). Qed.
+Print Assumptions C10_wf_setup.
